@@ -12,6 +12,7 @@ pub fn dispatch(op: &str, _req: &Value) -> Value {
 		"c13_modes" => c13_modes(_req),
 		"c15_keys" => c15_keys(_req),
 		"duration_sweep" => duration_sweep(_req),
+		"c11_persist" => c11_persist(_req),
 		"ca_start" => ca_start(_req),
 		_ => json!({"ok": false, "machinery_error": format!("unknown op {op}")}),
 	}
@@ -1054,4 +1055,89 @@ fn ca_start(req: &Value) -> Value {
 	let base = c.base.clone();
 	CA_KEEP.lock().unwrap().push(c);
 	json!({"ok": true, "base": base})
+}
+
+/// C11 persistence: account shapes (key type x superseded keys x endpoints x binding x names) saved and
+/// loaded back; and for some of them every truncation point of the file must be refused untouched.
+fn c11_persist(req: &Value) -> Value {
+	use acme_common::crypto::{gen_keypair, KeyType};
+	let truncate = req.get("truncate").and_then(|v| v.as_bool()).unwrap_or(false);
+	let shard = req.get("shard").and_then(|v| v.as_u64()).unwrap_or(0);
+	let nshards = req.get("nshards").and_then(|v| v.as_u64()).unwrap_or(1);
+	let dir = super::scenario::make_scratch();
+	let rt = tokio::runtime::Builder::new_current_thread().enable_all().build().unwrap();
+	let kts = [KeyType::EcdsaP256, KeyType::EcdsaP384, KeyType::EcdsaP521, KeyType::Ed25519, KeyType::Ed448, KeyType::Rsa2048, KeyType::Rsa4096];
+	let past_pool = vec![gen_keypair(KeyType::EcdsaP256).unwrap(), gen_keypair(KeyType::Ed25519).unwrap(), gen_keypair(KeyType::EcdsaP384).unwrap(), gen_keypair(KeyType::Rsa2048).unwrap()];
+	let names = ["plain", "n\u{e9}\u{4eac}\u{1f600} name", &"x".repeat(120)];
+	let mut bad = vec![];
+	let mut n = 0u64;
+	let mut truncations = 0u64;
+	let mut idx = 0u64;
+	let mut samples = vec![];
+	for (ki, kt) in kts.iter().enumerate() {
+		let cur = gen_keypair(*kt).unwrap();
+		for n_past in 0..4usize {
+			for n_ep in 0..4usize {
+				for eab in [false, true] {
+					for (ni, name) in names.iter().enumerate() {
+						idx += 1;
+						if idx % nshards != shard {
+							continue;
+						}
+						// keep the product small where nothing new happens: long/unicode names only on two key types
+						if ni > 0 && ki > 1 {
+							continue;
+						}
+						n += 1;
+						let d = format!("{dir}/a{idx}");
+						std::fs::create_dir_all(format!("{d}/accounts")).unwrap();
+						let fm = plain_fm(&d, name, "x");
+						let mut keys = vec![cur.clone()];
+						keys.extend(past_pool.iter().cloned());
+						let acc = make_account(&fm, name, 2, n_ep, n_past, eab, &keys);
+						if let Err(e) = rt.block_on(acc.save()) {
+							bad.push(json!({"oracle": "restart-roundtrip", "shape": [kt.to_string(), n_past, n_ep, eab, ni], "detail": format!("save failed: {}", e.message)}));
+							continue;
+						}
+						let want = account_fingerprint(&acc);
+						let contacts: Vec<(String, String)> = acc.contacts.iter().map(|c| ("mailto".to_string(), c.value.clone())).collect();
+						let loaded = rt.block_on(crate::account::Account::load(&fm, name, &contacts, &Some(kt.to_string()), &None, &acc.external_account));
+						match loaded {
+							Ok(l) => {
+								let got = account_fingerprint(&l);
+								if got != want {
+									bad.push(json!({"oracle": "restart-roundtrip", "shape": [kt.to_string(), n_past, n_ep, eab, ni], "detail": "loaded account differs from the saved one", "want": want, "got": got}));
+								}
+							}
+							Err(e) => bad.push(json!({"oracle": "restart-roundtrip", "shape": [kt.to_string(), n_past, n_ep, eab, ni], "detail": format!("load failed: {}", e.message)})),
+						}
+						if samples.len() < 2 {
+							samples.push(json!({"key_type": kt.to_string(), "past_keys": n_past, "endpoints": n_ep, "binding": eab, "name": name.chars().take(20).collect::<String>()}));
+						}
+						if truncate && ni == 0 && (n_past + n_ep) % 3 == 0 && ki < 4 {
+							let path = format!("{d}/accounts/{}.account.bin", acme_common::b64_encode(name));
+							let full = std::fs::read(&path).unwrap();
+							for len in 0..full.len() {
+								truncations += 1;
+								std::fs::write(&path, &full[..len]).unwrap();
+								let r = rt.block_on(crate::account::Account::load(&fm, name, &contacts, &Some(kt.to_string()), &None, &acc.external_account));
+								let after = std::fs::read(&path).unwrap_or_default();
+								if r.is_ok() || after != full[..len] {
+									bad.push(json!({"oracle": "truncation-refused", "shape": [kt.to_string(), n_past, n_ep, eab], "cut_at": len, "of": full.len(),
+										"detail": format!("account file truncated to {len} of {} bytes: load {} and the file {}", full.len(), if r.is_ok() { "succeeded" } else { "failed" }, if after != full[..len] { "was rewritten" } else { "was left alone" })}));
+									if bad.len() > 40 {
+										break;
+									}
+								}
+							}
+							std::fs::write(&path, &full).unwrap();
+						}
+						let _ = std::fs::remove_dir_all(&d);
+					}
+				}
+			}
+		}
+	}
+	let _ = std::fs::remove_dir_all(&dir);
+	json!({"ok": true, "shapes": n, "truncations": truncations, "bad": bad, "samples": samples})
 }
